@@ -1776,7 +1776,7 @@ BIG = 1_000_000
 def make_jobs(ctx):
     """quick: every map below 1 MB and one of the big towns (rotating with the seed) with default options, one
     non-default option combination for the maps below 300 kB, six mutated maps; thorough: every map, 3-8 option
-    combinations each, sixty mutated maps."""
+    combinations each, 48 mutated maps."""
     maps = repo_maps(ctx.repo)
     used, skipped, jobs = [], [], []
     scratch = os.path.join(ctx.tmp, "maps")
@@ -1795,22 +1795,34 @@ def make_jobs(ctx):
         used.append(rel)
         big = size >= BIG
         jobs.append(dict(repo=ctx.repo, rel=rel, options={}, mutation=None, seed=ctx.seed,
-                         npoints=B(ctx, 150 if big else 300, 5000), scratch=os.path.join(scratch, f"j{len(jobs)}"),
+                         npoints=B(ctx, 150 if big else 300, 3500), scratch=os.path.join(scratch, f"j{len(jobs)}"),
                          depth=B(ctx, 250, 10 ** 9)))
         for opts in option_combos(ctx, rel, size):
             jobs.append(dict(repo=ctx.repo, rel=rel, options=opts, mutation=None, seed=ctx.seed,
-                             npoints=B(ctx, 100, 1500), scratch=os.path.join(scratch, f"j{len(jobs)}"),
-                             depth=B(ctx, 100, 5000)))
+                             npoints=B(ctx, 100, 1000), scratch=os.path.join(scratch, f"j{len(jobs)}"),
+                             depth=B(ctx, 100, 4000)))
     # mutated variants of the smaller maps
     small = [rel for rel, size in present if size < 600_000] or [rel for rel, size in present]
     rng = random.Random(f"{ctx.seed}:mutants")
     kinds = ["drop-lane-links", "perturb-geometry", "perturb-width", "junction-id-zero", "lane-links-at-junctions",
              "drop-connecting-road-links"]
-    for k in range(B(ctx, 6, 60)):
-        rel = rng.choice(small)
+    texts = {}
+
+    def text_of(rel):
+        if rel not in texts:
+            texts[rel] = load_map_text(ctx.repo, rel, None)
+        return texts[rel]
+
+    for k in range(B(ctx, 6, 48)):
         kind = kinds[k % len(kinds)]
-        jobs.append(dict(repo=ctx.repo, rel=rel, options={}, mutation={"kind": kind, "seed": rng.randrange(10 ** 6)},
-                         seed=ctx.seed, npoints=B(ctx, 80, 600), scratch=os.path.join(scratch, f"j{len(jobs)}"),
+        # a map on which the mutation changes something (e.g. one with junctions for the junction mutations)
+        for _ in range(8):
+            rel = rng.choice(small)
+            mseed = rng.randrange(10 ** 6)
+            if mutate_xodr(text_of(rel), kind, mseed) != text_of(rel):
+                break
+        jobs.append(dict(repo=ctx.repo, rel=rel, options={}, mutation={"kind": kind, "seed": mseed},
+                         seed=ctx.seed, npoints=B(ctx, 80, 400), scratch=os.path.join(scratch, f"j{len(jobs)}"),
                          depth=B(ctx, 100, 2000)))
     sizes = dict(maps)
     jobs.sort(key=lambda j: -sizes.get(j["rel"], 0))  # biggest first so the pool is balanced
